@@ -6,6 +6,7 @@ import (
 	"fmt"
 	"io"
 	"net"
+	"runtime"
 	"sync"
 	"sync/atomic"
 	"testing"
@@ -82,6 +83,11 @@ type fakeClient struct {
 	mu      sync.Mutex
 	far     []net.Conn
 	event   chan struct{}
+	// rendezvous > 0: GetUserQuota (called by the handler right before its limit check) holds the callers
+	// until that many have arrived, then lets them go together (spin), so that simultaneous arrivals
+	// really reach the check at the same time
+	rendezvous, arrived atomic.Int32
+	quotaErr            bool // GetUserQuota fails: documented as "do not block the connection"
 }
 
 func (f *fakeClient) DialTunnel(tunnelID, mappingID, secretKey string) (net.Conn, stream.PackageStreamer, error) {
@@ -111,6 +117,21 @@ func (f *fakeClient) GetContext() context.Context                           { re
 func (f *fakeClient) CheckMappingQuota(string) error                        { return nil }
 func (f *fakeClient) TrackTraffic(string, int64, int64) error               { return nil }
 func (f *fakeClient) GetUserQuota() (*models.UserQuota, error) {
+	if n := f.rendezvous.Load(); n > 0 {
+		f.arrived.Add(1)
+		deadline := time.Now().Add(50 * time.Millisecond)
+		for spins := 0; f.arrived.Load() < n; spins++ {
+			if spins%1024 == 1023 {
+				if time.Now().After(deadline) {
+					break
+				}
+				runtime.Gosched()
+			}
+		}
+	}
+	if f.quotaErr {
+		return nil, errors.New("quota service unavailable")
+	}
 	return &models.UserQuota{MaxConnections: f.userMax}, nil
 }
 func (f *fakeClient) GetServerProtocol() string                                { return "tcp" }
@@ -138,6 +159,9 @@ func newMappingRig(limit int, source string) (*mappingRig, error) {
 	cfg := config.MappingConfig{MappingID: "pmap_verif", Protocol: "tcp", LocalPort: 18080, TargetHost: "127.0.0.1", TargetPort: 80, TargetClientID: 70000001}
 	if source == "user" {
 		r.cl.userMax = limit
+	} else if source == "user-quota-unavailable" {
+		r.cl.userMax = limit
+		r.cl.quotaErr = true
 	} else {
 		cfg.MaxConnections = limit
 	}
@@ -203,6 +227,9 @@ func roundMappingCap(t vkit.TB, c Case) {
 	if len(c.Ops) > 0 && c.Ops[0] == 1 {
 		source = "user"
 	}
+	if len(c.Ops) > 0 && c.Ops[0] == 2 {
+		source = "user-quota-unavailable" // the quota lookup fails: no limit is known, nothing may be refused
+	}
 	r, err := newMappingRig(c.Limit, source)
 	if err != nil {
 		vkit.Violation(t, "C17/harness/mapping-rig", err.Error(), c)
@@ -212,6 +239,9 @@ func roundMappingCap(t vkit.TB, c Case) {
 	const pfx = "C17/mapping-max-connections/handleConnection/"
 	class := fmt.Sprintf("mapping-cap/limit=%d/%s/%s", c.Limit, source, c.Mode)
 	k := c.Limit
+	if source == "user-quota-unavailable" {
+		k = 0
+	}
 	admittedBefore := func() int { return int(r.cl.dials.Load()) }
 	if c.Mode == "sequential" {
 		// a stream of long-lived connections, one at a time
@@ -229,7 +259,13 @@ func roundMappingCap(t vkit.TB, c Case) {
 				return
 			}
 		}
-		if !r.feed(c.Feed) {
+		if source == "user" {
+			r.cl.arrived.Store(0)
+			r.cl.rendezvous.Store(int32(c.Feed))
+		}
+		ok := r.feed(c.Feed)
+		r.cl.rendezvous.Store(0)
+		if !ok {
 			vkit.Skipped(1)
 			return
 		}
@@ -290,10 +326,10 @@ func TestMappingCap(t *testing.T) {
 			}
 		}
 	}
-	vkit.Check(t, 480, 9600, func(t *rapid.T) {
+	vkit.Check(t, 960, 9600, func(t *rapid.T) {
 		c := Case{Kind: "mapping-cap", Mode: rapid.SampledFrom([]string{"sequential", "concurrent", "concurrent"}).Draw(t, "mode"), Rounds: 50}
 		c.Limit = rapid.SampledFrom([]int{0, 1, 1, 3}).Draw(t, "limit")
-		c.Ops = []int{rapid.IntRange(0, 1).Draw(t, "limitFromUserQuota")}
+		c.Ops = []int{rapid.SampledFrom([]int{0, 0, 0, 1, 1, 1, 2}).Draw(t, "limitSource")}
 		if c.Mode == "sequential" {
 			c.Feed = c.Limit + rapid.IntRange(1, 4).Draw(t, "extra")
 		} else {
